@@ -63,7 +63,7 @@ def _leaves(reduced=False):
             BOOL: ['c', 'p(a)'],
         }
     return {
-        INT: ['a', 'g', 'K', '3', 'f(a)', 'arr[1]', 'GA[2]', 'MA[0]', 'arr.length', 's.length', 'pa[1]', 'ps.length'],
+        INT: ['a', 'g', 'K', '3', 'f(a)', 'arr[1]', 'GA[2]', 'MA[0]', 'arr.length', 's.length', 'pa[1]', 'ps.length', 'SA[1].length', 'fs(a).length', '(s is byte[]).length'],
         BYTE: ['b', 's[1]', 'gb', "'c'", 'q(b)', 'MY[1]', 'setb(b)', 'SA[1][s[1] - 100]', 'SA[0][(MB[1] is int) + 1]', 'SA[1][[2, 1][1]]', 'pcb[1]', 'ps[2]'],
         BOOL: ['c', 'true', 'gt', 'p(a)', 'MB[1]', '(setb(b) > 9)'],
     }
@@ -329,6 +329,8 @@ S_ATOMS = [
     'y = twice() + twice();',
     'r[0] += bumpr(r); GR[1] -= touchg(); y += GR[1];',
     'for (int i = 0; i < 2; i += 1) { bool[] bq = [true, false]; if (bq[1]) { y += 100; } bq[1] = true; byte[] yq = [\'a\', \'b\']; yq[0] += 1; y += yq[0]; }',
+    # a const copy of a mutable local is a value of its own
+    '{ const int cy = x; const int cz = y; x += 5; y = cy * 2 + cz; x += cy; }',
 ]
 
 S_ARGVS = [['0'], ['2'], ['-5']]
